@@ -239,3 +239,15 @@ Example c13_any_config_nonvacuous :
   | None => False
   end.
 Proof. vm_compute. repeat split. Qed.
+
+(* the hex text the default renderer writes for a byte-valued custom field reads back to the bytes *)
+Theorem c13_hex_text_exact : forall b, wfb b -> parse_hex (hex_of_bytes b) = Some b.
+Proof. exact hex_roundtrip. Qed.
+Print Assumptions c13_hex_text_exact.
+
+(* the prefix text of src_net / dst_net reads back to the address masked to the prefix length, and the length *)
+Theorem c13_prefix_text_exact : forall addr bits,
+  wfb addr -> (length addr = 4%nat /\ bits <= 32 \/ length addr = 16%nat /\ bits <= 128) ->
+  parse_prefix (render_prefix addr bits) = Some (mask_bytes addr bits, bits).
+Proof. exact prefix_roundtrip. Qed.
+Print Assumptions c13_prefix_text_exact.
